@@ -210,3 +210,181 @@ def check(ctx):
     field_round_trip(ctx, R, facts)
     R.N.judge(kinds=('ARITH', 'BOUNDS', 'CAST', 'UNWRAP', 'PANIC', 'STDPRE'), allowed_causes=('std::time::SystemTime::duration_since',))
     ctx.cov['trusted_base'] += ['rustc MIR of the dev profile', 'vf/models.py', 'vf/roundtrip.py summaries of pick_part / remove_part']
+    assembly(ctx, facts)
+
+
+# ------------------------------------------------------------------------------------------------------------------
+# Assembly: how parse combines the parsed units into the value
+NPS = 10**9
+COEF = {'Hour': 3600 * NPS, 'PeriodHour': 3600 * NPS, 'Minute': 60 * NPS, 'Second': NPS, 'Decis': 10**8, 'Centis': 10**7, 'Millis': 10**6,
+        'Micros': 10**3, 'Nanos': 1}
+ENTRIES = {
+    'datetime::DateTime::parse': ('util::parse::parse_part', None),
+    'date::Date::parse': ('util::parse::parse_date_part', ('Year', 'Month', 'DayOfMonth', 'DayOfYear')),
+    'time::Time::parse': ('util::parse::parse_time_part', ('Hour', 'PeriodHour', 'Period', 'Minute', 'Second', 'Decis', 'Centis', 'Millis', 'Micros', 'Nanos', 'Offset')),
+}
+I64 = {'k': 'int', 's': True, 'bits': 64, 'name': 'i64'}
+I32 = {'k': 'int', 's': True, 'bits': 32, 'name': 'i32'}
+U64 = {'k': 'int', 's': False, 'bits': 64, 'name': 'u64'}
+
+
+def single_field(ctx, facts, entry, partfn, unit, units):
+    """one run of `entry` on a pattern of one run whose part parser yields Some(ParsedPart {value: V, unit}) -> problems"""
+    from ..models import ok, err, some, none
+    from ..entries import DATETIME, DATE, TIME, OFFSET
+    N = Numeric(ctx, 'default', max_disj=300, max_steps=400_000)
+    I = N.I
+    rec = {'ymd': [], 'doy': [], 'tfn': [], 'rm': [], 'ofs': [], 'aso': []}
+    V = {}
+
+    def c_fmt(I_, st, args, dty, site):
+        s2 = st.clone()
+        from ..models import new_string_obj
+        part = new_string_obj(I_, s2, I_.lit_str(s2, 'x'))      # one run that is not a quoted literal
+        return [(s2, ('a', (part,)))]
+
+    def c_part(I_, st, args, dty, site):
+        s1, s2 = st.clone(), st.clone()
+        if 'v' not in V:
+            V['v'] = D.sym_vid(0, 1 if unit == 'Period' else 1000, 'parsed value')
+        s1.iv[V['v']] = (0, 1 if unit == 'Period' else 1000)
+        s1.trace = s1.trace + ('parsed',)      # marks the paths on which the part parser returned the value
+        v = ('i', V['v'], 'i64')
+        ui = units.index(unit)
+        pp = ('s', PARSED, (v, ('e', UNIT, {ui: ()})), None)
+        return [(s1, ok(some(pp))), (s2, err(I_.top(s2, dty['args'][1], 'fmt')))]
+
+    def rec_call(key, ret):
+        def c(I_, st, args, dty, site):
+            s1, s2 = st.clone(), st.clone()
+            r = ret(I_, s1, dty)
+            rec[key].append((st, args, r))
+            outs = [(s1, ok(r) if dty.get('path') == 'std::result::Result' else r)]
+            if dty.get('path') == 'std::result::Result':
+                outs.append((s2, err(I_.top(s2, dty['args'][1], 'oor'))))
+            return outs
+        return c
+
+    def top_of(inner):
+        def f(I_, st, dty):
+            from ..entries import apply_invariants
+            ty = dty['args'][0] if dty.get('path') == 'std::result::Result' else dty
+            v = I_.top(st, ty, inner)
+            apply_invariants(I_, st, v)
+            return v
+        return f
+    I.contracts['util::parse::parse_format_string'] = c_fmt
+    I.contracts[partfn] = c_part
+    I.contracts['datetime::DateTime::from_ymd'] = rec_call('ymd', top_of('from_ymd'))
+    I.contracts['date::Date::from_ymd'] = rec_call('ymd', top_of('from_ymd'))
+    I.contracts['util::date::convert::year_doy_to_days'] = rec_call('doy', top_of('doy days'))
+    I.contracts['time::Time::from_nanos'] = rec_call('tfn', top_of('time'))
+    I.contracts['util::offset::try_remove_offset_from_dn'] = rec_call('rm', top_of('utc'))
+    I.contracts['offset::Offset::from_seconds'] = rec_call('ofs', top_of('offset'))
+    I.contracts['<time::Time as shared::OffsetUtilities>::as_offset'] = rec_call('aso', top_of('as_offset'))
+    I.return_partition[entry] = lambda I_, st, v: id(st)
+    N.run(entry, variants=('fixed',))
+    problems = []
+    nok = 0
+    v = V.get('v')
+
+    def is_const(st, x, c):
+        return x[0] == 'i' and D.get_iv(st, x[1]) == (c, c)
+
+    def is_v(st, x):
+        return x[0] == 'i' and v is not None and D.aff_equiv(D.aff_of(x[1]), D.aff_of(v), st=st)
+    def judge_path(st, val, use_v):
+        """problems of one Ok path against the expectation with the parsed value (use_v) or with every field absent"""
+        pr = []
+        ty = entry.split('::')[1]
+        u = unit if use_v else None
+        if ty in ('DateTime', 'Date'):
+            if u == 'DayOfYear':
+                hit = [r for r in rec['doy'] if is_const(r[0], r[1][0], 1) and is_v(r[0], r[1][1]) and is_const(r[0], r[1][2], 0)]
+                if not hit or (val[2][0] if val[0] == 's' else None) not in [h[2] for h in hit]:
+                    pr.append('with a day of year the day number is not year_doy_to_days(1, value, false)')
+            else:
+                want = {'Year': 0, 'Month': 1, 'DayOfMonth': 2}.get(u)
+                hit = [r for r in rec['ymd'] if all((is_v(r[0], a) if i == want else is_const(r[0], a, 1)) for i, a in enumerate(r[1]))]
+                if not hit:
+                    pr.append(f'the date is not from_ymd with {u or "no field"} = value and the other fields 1')
+                elif ty == 'Date' and val not in [h[2] for h in hit]:
+                    pr.append('the Date returned is not the one built by from_ymd')
+                elif ty == 'DateTime' and u == 'Offset':
+                    if not any(r[1][0] in [h[2][2][0] for h in hit] for r in rec['rm']):
+                        pr.append('the day number shifted by the zone is not the one built by from_ymd')
+                elif ty == 'DateTime' and (val[0] != 's' or val[2][0] not in [h[2][2][0] for h in hit]):
+                    pr.append('the day number returned is not the one built by from_ymd')
+        if ty in ('DateTime', 'Time'):
+            if u == 'Period':
+                pl = D.get_iv(st, v)
+                want = D.aff_const(0) if pl == (0, 0) else D.aff_const(12 * 3600 * NPS) if pl[0] >= 1 else None
+            elif u in COEF:
+                want = D.aff_scale(D.aff_of(v), COEF[u])
+            else:
+                want = D.aff_const(0)
+            hit = [r for r in rec['tfn'] if r[1][0][0] == 'i' and want is not None and D.aff_equiv(D.aff_of(r[1][0][1]), want, st=r[0])]
+            if not hit:
+                pr.append(f'the time of day is not Time::from_nanos({u or "no"} value * {COEF.get(u, 0)}) with the other fields 0')
+            else:
+                tvs = [h[2] for h in hit]
+                if u == 'Offset':
+                    ofs = [r for r in rec['ofs'] if is_v(r[0], r[1][0])]
+                    if not ofs:
+                        pr.append('the zone is not Offset::from_seconds(value)')
+                    elif ty == 'Time':
+                        aso = [r for r in rec['aso'] if r[1][1] in [o[2] for o in ofs]]
+                        if not aso or val not in [a_[2] for a_ in aso]:
+                            pr.append('the Time returned is not from_nanos(..).as_offset(zone)')
+                    else:
+                        rm = [r for r in rec['rm'] if any(r[1][1] == tv[2][0] for tv in tvs)]
+                        if not rm or val[0] != 's' or val[2][2] not in [o[2] for o in ofs] or (val[2][0], val[2][1]) not in [tuple(r[2][1]) for r in rm]:
+                            pr.append('the DateTime returned is not the local reading shifted to UTC by the zone, carrying the zone as its offset')
+                elif ty == 'Time':
+                    if val not in tvs:
+                        pr.append('the Time returned is not Time::from_nanos(..)')
+                else:
+                    if val[0] != 's' or val[2][1] not in [tv[2][0] for tv in tvs]:
+                        pr.append('nanoseconds of the DateTime returned is not the time of day built by Time::from_nanos')
+                    if val[0] == 's' and not any(val[2][2] == r[2][2][2] for r in rec['ymd'] if r[2][0] == 's') and not rec['doy']:
+                        pr.append('without a zone in the pattern the offset is not the one of the value built from the date (UTC)')
+        return pr
+    with_v = 0
+    import os
+    if os.environ.get('C12DBG'):
+        for k_, lst in rec.items():
+            for st_, a_, r_ in lst:
+                print('REC', k_, [I.describe(st_, x) for x in a_], [x[1] if x[0] == 'i' else None for x in a_], 'v=', v)
+    for args, st0, outs in N.results.get(entry, []):
+        for st, rv in outs:
+            if rv[0] != 'e' or 0 not in rv[2] or 1 in rv[2] or v is None:
+                continue
+            nok += 1
+            val = rv[2][0][0]
+            p1 = judge_path(st, val, True)
+            if not p1:
+                with_v += 1
+                continue
+            p0 = judge_path(st, val, False)      # a path on which the run was a quoted literal: every field absent
+            if p0:
+                problems.extend(p1)
+    if nok and not with_v and not problems:
+        problems.append('no Ok path carries the parsed value into the result')
+    if nok == 0:
+        problems.append('no Ok path with a parsed value')
+    return list(dict.fromkeys(problems))
+
+
+def assembly(ctx, facts):
+    units = [v['name'] for v in facts.adts[UNIT]['variants']] if UNIT in facts.adts else []
+    ctx.rule('C12-A ParseUnit variants', len(units), len(units), floor=15)
+    for entry, (partfn, only) in ENTRIES.items():
+        if not ctx.anchor(facts.bodies, entry, 'C12 assembly'):
+            continue
+        for unit in units:
+            if only is not None and unit not in only:
+                continue
+            pr = single_field(ctx, facts, entry, partfn, unit, units)
+            ctx.rule('C12-A a single parsed unit lands in its field, the others take the documented defaults', 1, 0 if pr else 1, sample={'entry': entry, 'unit': unit})
+            for i, m in enumerate(pr[:2]):
+                ctx.finding(f'C12:ASSEMBLY|{entry}|{unit}|{i}', 'C12-A assembly', facts.bodies[entry]['span'], f'{entry} with one {unit} field: {m}')
